@@ -90,6 +90,7 @@ void verif_noreturn(void);
 #define __CPROVER_requires(c)
 #define __CPROVER_ensures(c)
 #define __CPROVER_assigns(...)
+#define __CPROVER_frees(...)
 #define __CPROVER_assume(c)      do { if (!(c)) verif_replay_reject(#c); } while (0)
 #define __CPROVER_assert(c, msg) do { if (!(c)) verif_replay_fail(msg); } while (0)
 #define __CPROVER_is_fresh(p, n) 1
